@@ -8,6 +8,7 @@ import os
 import random
 import re
 import shutil
+import signal
 import subprocess
 import sys
 import tempfile
@@ -217,6 +218,10 @@ def load_findings():
 
 # ------------------------------------------------------------------------------------------- run context
 
+class SearchTimeout(Exception):
+    pass
+
+
 class Ctx:
     def __init__(self, pid, tier, seed, budget):
         self.pid, self.tier, self.seed, self.budget = pid, tier, seed, budget
@@ -337,11 +342,26 @@ def run_check(pid, tier, module):
             if hasattr(module, 'search'):
                 ctx2 = Ctx(pid, tier, seed + 1000003, budget * 10)
                 ctx2._tmp = None
+                # the search is bounded in time (quick: 5 min, thorough: 20 min); what it found until then counts
+                limit = int(os.environ.get('VERIF_SEARCH_S', 1200 if tier == 'thorough' else 300))
+
+                def _expired(signum, frame):
+                    raise SearchTimeout()
+                old = signal.signal(signal.SIGALRM, _expired)
+                signal.alarm(limit)
                 try:
                     module.search(ctx2, ctx.divergences)
+                except SearchTimeout:
+                    ctx.notes['search'] = f'failing-input search stopped after {limit} s'
+                except BrokenCheck:
+                    raise
+                except Exception as e:  # noqa  (a broken implementation may break the harness during the search as well)
+                    ctx.notes['search'] = f'failing-input search aborted: {type(e).__name__}: {e}'[:300]
+                finally:
+                    signal.alarm(0)
+                    signal.signal(signal.SIGALRM, old)
                     if ctx2.failures:
                         found = ctx2.failures
-                finally:
                     ctx2.cleanup()
             violations = 1
             if found:
